@@ -301,7 +301,7 @@ def run_property(prop_id, tier, seed, workers=None, replay=None, only=None):
             if len(cands) >= 3:
                 break
         history = None
-        if cands and n < 8:  # the verdict is settled by the first confirmed keys; further keys are filed as found
+        if cands and n < 5:  # the verdict is settled by the first confirmed keys; further keys are filed as found
             confirmed, last = None, None
             for cv in cands:
                 again = _rerun_keys(mod, cv["case"], prop_id)
